@@ -360,4 +360,34 @@ PROPS = {
             sub("spdeop", "c15_spde", 800, 20000, qw=2, tw=4),
             sub("powers", "c15_spde", 12, 300, qw=2, tw=6),
         ]),
+    "C05": dict(
+        level="exploration",
+        rule=("metamorphic relation 'masked = physically removed': a rapidcheck-generated Db carries masks (selection none / all active / all masked / random, "
+              "samples with all values undefined, samples with an undefined coordinate) and the same operation runs on the masked Db and on the physically "
+              "reduced Db (built by hand or through Db::createReduce): kriging (unique, moving, ball search, block, undefined coordinates), xvalid, conditional "
+              "simtub with the same seed, global estimation, variograms on points and grids, statistics, covariance/drift matrices, migrate, PCA/MAF, "
+              "anamorphosis; counts compared exactly, other numbers at 1e-10 (kappa-gated for solves); masked targets keep TEST in new columns and no "
+              "pre-existing cell changes; non-trivial = 0 < #masked < n and the masked samples would have mattered (inside the neighbourhood / lag range / "
+              "statistics support); distinct = hash of (operation, dimension, sizes, mask classes, options)"),
+        assumptions=["a value undefined in one variable only stays on both sides (it cannot be removed from a rectangular table): left to C01's oracle",
+                     "selection values are 0/1; kribayes, image/bench/cell neighbourhoods and SPDE are not exercised",
+                     "regions that abort the process today (recorded crash findings) are excluded by the generators (re-entered with C05_UNSAFE=1)",
+                     "models restricted to mathematically valid structures"],
+        subs=[
+            sub("krig_unique", "c05_masked", 1500, 40000, qw=1, tw=2),
+            sub("krig_moving", "c05_masked", 1500, 40000, qw=1, tw=2),
+            sub("krig_ball", "c05_masked", 1500, 40000, qw=1, tw=2),
+            sub("krig_block", "c05_masked", 800, 20000, qw=1, tw=2),
+            sub("krig_nacoord", "c05_masked", 1000, 25000, qw=1, tw=2),
+            sub("xvalid", "c05_masked", 1000, 25000, qw=1, tw=2),
+            sub("simtub_cond", "c05_masked", 800, 20000, qw=1, tw=2),
+            sub("global_grid", "c05_masked", 800, 20000, qw=1, tw=2),
+            sub("vario", "c05_masked", 1500, 40000, qw=1, tw=2),
+            sub("stats", "c05_masked", 3000, 80000, qw=1, tw=2),
+            sub("covmat", "c05_masked", 2500, 60000, qw=1, tw=2),
+            sub("migrate", "c05_masked", 2000, 50000, qw=1, tw=2),
+            sub("pca", "c05_masked", 1500, 40000, qw=1, tw=2),
+            sub("anam", "c05_masked", 1500, 40000, qw=1, tw=2),
+            sub("vario_grid", "c05_masked", 1000, 25000, qw=1, tw=2),
+        ]),
 }
